@@ -155,7 +155,9 @@ def run(ctx):
     # ---------------- R13.2b Serialize for Any: variant -> serialize_X
     sb = [b for b in c.bodies if b.trait == "serde_core::ser::Serialize" and ty_adt(b.self_ty) == ANY and b.name == "serialize"]
     if len(sb) == 1:
-        m, wild = discr_switch_map(sb[0], F, lambda t: (t["call"].get("trait") or "") in ("serde_core::ser::Serializer", "serde_core::ser::Serialize"))
+        # the dispatch may live in `impl Serialize for Inner` with Any delegating to it
+        sbx = inline.expand(c, sb[0], depth=2, pred=lambda cb: "/any/" in (cb.file or ""), max_callee_blocks=600)
+        m, wild = discr_switch_map(sbx, F, lambda t: (t["call"].get("trait") or "") in ("serde_core::ser::Serializer", "serde_core::ser::Serialize"))
         for v in names:
             got = m.get(v, set())
             ctx.check(got == {spec["reserialize"][v]} and v not in wild, "R13.2", sb[0].loc(), f"reserialize|{v}",
@@ -237,8 +239,16 @@ def run(ctx):
                 ctx.violation("R13.3", f"{ki['file']}:{ki['line']}", f"key|{m}|missing", f"{ty_adt(ki['self_ty'])} does not override {m}: map keys of that type could not be read back from their string form")
                 continue
             rows += 1
+            # the "is it a string, does it parse" step may live in a private generic helper: decided on the expansion
+            # (type parameters instantiated, combinators lowered)
+            b0 = b
+            b = inline.expand(c, b, depth=2, pred=lambda cb: cb.d.get("vis") != "pub" and "/any/" in (cb.file or ""), lower=True)
             cfg = CFG(b)
-            parses = [(bb, t) for bb, t in b.calls() if t["call"].get("name") == "parse" and "core::str" in t["call"]["def"]]
+            parses = [(bb, t) for bb, t in b.calls() if (t["call"].get("name") == "parse" and "core::str" in t["call"]["def"])
+                      or (t["call"].get("name") == "from_str" and "FromStr" in t["call"]["def"])]
+            for _, t_ in parses:
+                if t_["call"]["name"] == "from_str":
+                    t_["call"] = dict(t_["call"], substs=t_["call"]["substs"][:1])
             visits = [(bb, t) for bb, t in b.calls() if (t["call"].get("trait") or "") == "serde_core::de::Visitor"]
             good = len(parses) == 1 and [tystr(x) for x in parses[0][1]["call"]["substs"]] == [ty] and len(visits) == 1 and visits[0][1]["call"]["name"] == vis
             if good:
@@ -247,7 +257,7 @@ def run(ctx):
                 good = good and ("call", parses[0][0]) in {s if s[0] != "field" else s[1] for s in tr.sources(visits[0][1]["args"][1])}
             elif not parses and len(visits) == 1 and visits[0][1]["call"]["name"] == vis:
                 # combinator form: key.and_then(|k| k.parse().ok()) matched as Some(v) => visit(v)
-                cparses = [(x, t) for x in c.closures_of(b) for _, t in x.calls() if t["call"].get("name") == "parse" and "core::str" in t["call"]["def"]]
+                cparses = [(x, t) for x in c.closures_of(b0) for _, t in x.calls() if t["call"].get("name") == "parse" and "core::str" in t["call"]["def"]]
                 parses = [(0, t) for _, t in cparses]
                 if len(cparses) == 1 and [tystr(x) for x in cparses[0][1]["call"]["substs"]] == [ty]:
                     clo = cparses[0][0]
